@@ -1279,7 +1279,7 @@ func init() {
 			apiArgsNotMutated(c, "R15k")
 		}
 		if c.CountRule("R15l") == 0 {
-			importRules(c, "C09", map[string]string{"R09a": "R15l", "R09i": "R15l"})
+			importRules(c, "C09", map[string]string{"R09a": "R15l", "R09i": "R15l", "R09j": "R15l"})
 			c.Floor("R15l", 15, "borrowed-buffer discipline (= C09 R09a/R09i)")
 		}
 	})
@@ -2555,4 +2555,8 @@ func init() {
 		}
 	})
 	addDoc("C03", "K20 (= C11 R11d) navigator movement methods: finite model check incl. nil links.")
+}
+
+func init() {
+	addDoc("C09", "R09j borrowed locals do not survive a refill: forward may-dataflow over every library function (bits holds/stale per value, borrow definitions = source calls, repository functions returning borrowed slices, borrowed parameters); a refill (source call or any repository function reaching one) makes every held value stale; any read of a stale value (call argument, element load, string conversion, copy/append of elements, store outside locals, return, capture) is a violation.")
 }
